@@ -5,10 +5,21 @@ from props import PROPS, COMMON_TRUSTED
 
 
 def load_known(root):
-    p = os.path.join(root, "known_findings.json")
-    if not os.path.exists(p):
-        return {"findings": [], "fixed": []}
-    return json.load(open(p))
+    """known_findings.json (merged, committed) plus known_findings.d/*.json
+    (per-property fragments). Never written at run time."""
+    k = {"findings": [], "fixed": []}
+    paths = [os.path.join(root, "known_findings.json")] + sorted(glob.glob(os.path.join(root, "known_findings.d", "*.json")))
+    for p in paths:
+        if not os.path.exists(p):
+            continue
+        d = json.load(open(p))
+        for f in d.get("findings", []):
+            if f not in k["findings"]:
+                k["findings"].append(f)
+        for f in d.get("fixed", []):
+            if f not in k["fixed"]:
+                k["fixed"].append(f)
+    return k
 
 
 def match_known(known, prop, viol):
@@ -57,7 +68,7 @@ def check(prop, tier, replay, C):
             broken.append(("tie", "extractor", out[-2000:]))
         # ------------------------------------------------------------ 2. proofs
         mods = P["lean_modules"]
-        rc, out = C.run(["lake", "build"] + mods + ["GunYu.Audit.Tool", "driver"], cwd=LEAN)
+        rc, out = C.run(["lake", "build"] + mods + ["GunYu.Audit.Tool", P["driver"]], cwd=LEAN)
         build_ok = rc == 0
         if rc:
             # name the failing declarations
@@ -67,7 +78,7 @@ def check(prop, tier, replay, C):
                 names.append(f"{f}:{ln}: {msg[:200]}")
             broken.append(("proof", "lake build " + " ".join(mods), "\n".join(names) or out[-3000:]))
         # forbidden tokens
-        for m in C.lean_sources(mods + ["Driver.Main"]):
+        for m in C.lean_sources(mods + ["Driver." + P["driver"][4:]]):
             p = os.path.join(LEAN, *m.split(".")) + ".lean"
             if not os.path.exists(p):
                 continue
@@ -147,7 +158,7 @@ def check(prop, tier, replay, C):
         ops = os.path.join(outdir, name + ".ops")
         impl = os.path.join(outdir, name + ".impl")
         model = os.path.join(outdir, name + ".model")
-        drv = os.path.join(LEAN, ".lake", "build", "bin", "driver")
+        drv = os.path.join(LEAN, ".lake", "build", "bin", P["driver"])
         if os.path.exists(drv) and os.path.exists(ops):
             with open(ops) as fi, open(model, "w") as fo:
                 t1 = time.time()
